@@ -5,6 +5,7 @@ import (
 	"go/token"
 	"go/types"
 	"math/big"
+	"sort"
 	"strings"
 
 	"cachelint/poly"
@@ -127,11 +128,17 @@ func (c *Ctx) c10Jitter() {
 
 // defaultsRule: in Trait.init (NewTrait) each listed config field is replaced by its documented default exactly when 0.
 func (c *Ctx) defaultsRule(rule string, want map[string]*big.Rat) {
-	r := c.R
 	name := "Trait.init"
 	if _, fn := c.funcDecl(name); fn == nil {
 		name = "NewTrait"
 	}
+	c.ctorDefaults(rule, name, "Config", want)
+}
+
+// ctorDefaults: in constructor name, each field of want gets its documented default exactly when it is zero, is otherwise left as
+// configured, and the completed configuration is what the instance keeps in instField.
+func (c *Ctx) ctorDefaults(rule, name, instField string, want map[string]*big.Rat) {
+	r := c.R
 	e, paths, _, err := c.runFunc(name, pw.Policy{})
 	if err != nil {
 		r.Unknown(rule, name, err.Error())
@@ -183,6 +190,54 @@ func (c *Ctx) defaultsRule(rule string, want map[string]*big.Rat) {
 		} else if !bad {
 			r.OK(rule, name+":"+field, fmt.Sprintf("default %s applied exactly when zero (%d/%d paths)", def.RatString(), nSet, nKeep))
 		}
+	}
+	var fields []string
+	for f := range want {
+		fields = append(fields, f)
+	}
+	sort.Strings(fields)
+	c.storedAfterDefaults(rule, name, instField, fields)
+}
+
+// storedAfterDefaults: a constructor that completes a local configuration struct (defaults for zero fields) must store it in the
+// instance after completing it — a struct assignment (or literal field) copies the value, writes to the local made afterwards never
+// reach the instance. fields: the defaulted fields the instance's code reads; instField: the instance field holding the copy.
+func (c *Ctx) storedAfterDefaults(rule, ctor, instField string, fields []string) {
+	r := c.R
+	_, paths, _, err := c.runFunc(ctor, pw.Policy{})
+	if err != nil {
+		r.Unknown(rule, ctor, err.Error())
+		return
+	}
+	isField := map[string]bool{}
+	for _, f := range fields {
+		isField[f] = true
+	}
+	nCopy, bad := 0, false
+	reported := map[string]bool{}
+	for _, p := range paths {
+		var src *pw.Val
+		for _, ev := range p.Events {
+			switch {
+			case src == nil && ev.Kind == pw.EvFieldWrite && ev.Field != nil && ev.Field.Name() == instField && ev.Value != nil:
+				src = ev.Value
+				nCopy++
+			case src == nil && ev.Kind == pw.EvStructCopy && ev.Note == "literal:"+instField:
+				src = ev.Recv
+				nCopy++
+			case src != nil && ev.Kind == pw.EvFieldWrite && ev.Field != nil && isField[ev.Field.Name()] && ev.Recv == src:
+				if !reported[ev.Field.Name()] {
+					reported[ev.Field.Name()] = true
+					bad = true
+					r.Bad(rule, ctor, "default-after-store:"+ev.Field.Name(), c.Pos(ev.Pos), ev.Field.Name()+" of the local configuration is completed after the configuration was copied into the instance: the instance keeps the uncompleted value", shortTrace(p))
+				}
+			}
+		}
+	}
+	if nCopy == 0 {
+		r.Unknown(rule, ctor+":"+instField, "no store of the configuration into the instance found")
+	} else if !bad {
+		r.OK(rule, ctor+":"+instField, fmt.Sprintf("stored on %d paths after all of %v were completed", nCopy, fields))
 	}
 }
 
